@@ -188,32 +188,31 @@ pub(crate) fn matrix_set<const D: usize>(m: &mut Matrix<D>, r: usize, c: usize, 
     assert!(ok, "matrix index out of bounds: ({r}, {c}) for {D}x{D}");
 }
 
-/// Safety factor for [`is_numerically_singular`]: a pivot counts as rounding noise when it is
-/// below `PIVOT_NOISE_FACTOR * D * f64::EPSILON` times the magnitude of the terms that were
-/// cancelled to produce it.
-const PIVOT_NOISE_FACTOR: f64 = 8.0;
+/// Safety factor for [`is_numerically_singular`]: a pivot counts as rounding noise when it does
+/// not exceed `PIVOT_NOISE_FACTOR` times the propagated bound on its own rounding error.
+const PIVOT_NOISE_FACTOR: f64 = 4.0;
 
 /// Decide whether a matrix is singular up to rounding.
 ///
 /// Absolute pivot or determinant thresholds cannot tell a rank-deficient matrix from a small
 /// one: eliminating an exactly singular matrix usually leaves a pivot of rounding-noise size
-/// rather than zero. This runs Gaussian elimination with partial pivoting alongside a running
-/// bound `m` on the magnitude of the terms accumulated into each entry (`m >= |L||U|`). A
-/// computed pivot carries an absolute error of about `D * EPSILON * m`, so a pivot below that
-/// level is indistinguishable from zero. The test is invariant under scaling and does not
-/// penalise badly scaled but cancellation-free matrices (edge matrices of thin "needle"
+/// rather than zero. This runs Gaussian elimination with partial pivoting alongside a first-order
+/// forward bound `e` on the absolute rounding error of every entry (the entries themselves are
+/// rounded differences of coordinates; each multiplier inherits the error of its pivot; each
+/// update adds the rounding of its product and difference). A pivot that does not clearly exceed
+/// its own error bound is indistinguishable from zero. The test is invariant under scaling and
+/// does not penalise badly scaled but cancellation-free matrices (edge matrices of thin "needle"
 /// simplices).
 pub(crate) fn is_numerically_singular<const D: usize>(matrix: &Matrix<D>) -> bool {
+    const UNIT_ROUNDOFF: f64 = f64::EPSILON / 2.0;
     let mut a = [[0.0_f64; D]; D];
-    let mut m = [[0.0_f64; D]; D];
+    let mut e = [[0.0_f64; D]; D];
     for i in 0..D {
         for j in 0..D {
             a[i][j] = matrix_get(matrix, i, j);
-            m[i][j] = a[i][j].abs();
+            e[i][j] = UNIT_ROUNDOFF * a[i][j].abs();
         }
     }
-    #[allow(clippy::cast_precision_loss)]
-    let noise_level = PIVOT_NOISE_FACTOR * (D as f64) * f64::EPSILON;
     for k in 0..D {
         let mut pivot_row = k;
         for i in (k + 1)..D {
@@ -222,16 +221,27 @@ pub(crate) fn is_numerically_singular<const D: usize>(matrix: &Matrix<D>) -> boo
             }
         }
         a.swap(k, pivot_row);
-        m.swap(k, pivot_row);
+        e.swap(k, pivot_row);
         let pivot = a[k][k];
-        if !pivot.is_finite() || pivot.abs() <= noise_level * m[k][k] {
+        // NaN, and a zero pivot with a zero bound, count as singular.
+        let noise = PIVOT_NOISE_FACTOR * e[k][k];
+        if pivot.is_nan() || noise.is_nan() || pivot.abs() <= noise {
             return true;
         }
         for i in (k + 1)..D {
             let factor = a[i][k] / pivot;
+            let factor_error = factor
+                .abs()
+                .mul_add(e[k][k], e[i][k])
+                / pivot.abs()
+                + UNIT_ROUNDOFF * factor.abs();
             for j in (k + 1)..D {
-                a[i][j] -= factor * a[k][j];
-                m[i][j] += factor.abs() * m[k][j];
+                let product = factor * a[k][j];
+                let updated = a[i][j] - product;
+                e[i][j] += factor.abs() * e[k][j]
+                    + a[k][j].abs() * factor_error
+                    + UNIT_ROUNDOFF * (updated.abs() + product.abs());
+                a[i][j] = updated;
             }
         }
     }
